@@ -576,6 +576,8 @@ def file_collisions(spec, f):
         note_mod(ref)
         if ref in syms and syms[ref]["kind"] == "message":
             for fl in syms[ref]["spec"]["fields"]:
+                if fl["card"] == "map":          # the entry message is a field type living in the message's own module
+                    mods.setdefault(syms[ref]["file"], set()).add(spec["package"])
                 reach(fl.get("ref"))
         elif ref in ext and ext[ref][0] == "message":
             for t in ext_field_types(ref):
@@ -583,6 +585,8 @@ def file_collisions(spec, f):
     for full, s in syms.items():
         if s["file"] == f["name"] and s["kind"] == "message":
             for fl in s["spec"]["fields"]:
+                if fl["card"] == "map":
+                    mods.setdefault(f["name"], set()).add(spec["package"])
                 reach(fl.get("ref"))
     names.update(m for m, pk in mods.items() if len(pk) > 1 or m in RESERVED)
     return sorted(names)
@@ -759,8 +763,9 @@ def classify_import_error(err, shadows, spec=None):
         # class of the wrong kind (AttributeError/TypeError raised while the enclosing class is created)
         if err["type"] == "NameError" and err["msg"] == f"name '{bare.split('.')[0]}' is not defined":
             return "nested-ref-unquoted"
-        if err["type"] in ("AttributeError", "TypeError") and (text in (f"message={bare},", f"enum={bare},")
-                                                               or text.startswith(f"class {ctx_full.rsplit('.', 1)[-1]}(")):
+        if err["type"] in ("AttributeError", "TypeError") and (
+                text in (f"message={bare},", f"enum={bare},")
+                or any(text.startswith(f"class {seg}(") for seg in ctx_full[len(spec["package"]) + 1:].split("."))):
             return "nested-ref-unquoted"
     return "import-error:" + err["type"]
 
@@ -1186,7 +1191,7 @@ def run(ctx):
     for fn, payload in corpus_specs():
         run_spec(ctx, r, payload["spec"], "corpus:" + fn)
     run_spec(ctx, r, coverage_spec(), "coverage", nvals=ctx.n(3, 8))
-    n = ctx.n(40, 700)
+    n = ctx.n(40, 600)
     for i in range(n):
         run_spec(ctx, r, gen_spec(r, big=(i % 5 == 4)), f"gen{i}")
 
